@@ -721,7 +721,19 @@ func (lw *loopWorld) peer(f []string) {
 		}
 	case "steal":
 		// somebody else (the blocking twin Accept, another process sharing the socket) takes the queued connection
-		if o.kind != "listener" || o.closed {
+		if (o.kind == "mpeer" || o.kind == "packet") && !o.closed {
+			// ... or takes the queued datagram with the blocking Read (the scenarios queue an empty one: no bytes go missing)
+			b := make([]byte, 64)
+			var err error
+			if o.kind == "mpeer" {
+				_, _, err = o.mp.Read(b)
+			} else {
+				_, _, err = o.pc.ReadFrom(b)
+			}
+			if err != nil && !errors.Is(err, io.EOF) {
+				res = "none"
+			}
+		} else if o.kind != "listener" || o.closed {
 			res = "fail"
 		} else if c, err := o.ln.Accept(); err != nil {
 			res = "none"
@@ -1678,6 +1690,13 @@ func loopEnum(args []string, w *bufio.Writer) {
 		"peer 1 connect", "poll", "poll", "pending", "accept 1 op=13", "poll", "pending")
 	emit("obj 1 listener", "prog 12 peer 1 steal", "accept 1 op=11", "post op=12", "peer 1 connect", "poll", "pending", "peer 1 connect", "poll", "poll", "pending")
 	emit("obj 1 listener", "prog 12 peer 1 steal", "prog 11 accept 1 op=+", "accept 1 op=11", "post op=12", "peer 1 connect", "poll", "pending", "peer 1 connect", "poll", "poll", "pending")
+	// 5d. the same for datagram sockets: the wake-up finds nothing (an earlier handler of the batch took the — empty — datagram with the
+	// blocking Read); the read stays in flight with its buffer and completes with the next datagram
+	for _, kind := range []string{"mpeer", "packet"} {
+		emit("obj 1 "+kind, "obj 2 tcp", "prog 12 peer 1 steal", "recvfrom 1 16 op=11", "read 2 4 op=12", "peer 2 write 4", "peer 1 send 0", "poll", "pending",
+			"peer 1 send 8", "poll", "pending")
+		emit("obj 1 "+kind, "prog 12 peer 1 steal", "recvfrom 1 16 op=11", "post op=12", "peer 1 send 0", "poll", "pending", "peer 1 send 8", "poll", "poll", "pending")
+	}
 	// 6. what the callback of a repeating schedule does to its own timer (the schedule continues unless the callback
 	// cancelled / closed the timer or left another schedule armed), including a nested poll in which the new schedule fires
 	for _, body := range []string{
